@@ -217,6 +217,8 @@ pub struct Src {
     pub excused: bool,
     /// reregister() calls seen when the dispatch started
     pub rereg_at_start: u32,
+    /// the token this source holds was issued by a loop that has been dropped
+    pub old_loop: bool,
     // history facts (for violation flags)
     pub was_disabled: bool,
     pub reenabled: bool,
